@@ -54,6 +54,12 @@ mutant('m15_filter_shares_base', 'C15', T,
        "        return self.__class__(\n            species=new_species,\n            coords=new_coords,\n",
        "        new_coords[0] = np.round(new_coords[0], 6)\n        return self.__class__(\n            species=new_species,\n            coords=new_coords,\n", 'C15/positions_changed',
        'filter rounds the first frame (data altered by selection)')
+mutant('n15_getitem_copies_metadata', 'C15', T, "new.metadata = self.metadata if hasattr(self, 'metadata') else {}", "new.metadata = dict(self.metadata) if hasattr(self, 'metadata') else {}", None,
+       'NEGATIVE CONTROL: slices get their own copy of the metadata dict')
+mutant('n15_split_other_boundaries', 'C15', T, "interval = np.linspace(0, len(self) - 1, n_parts + 1, dtype=int)", "interval = np.linspace(0, len(self), n_parts + 1, dtype=int)", None,
+       'NEGATIVE CONTROL: other (still contiguous, chronological) split boundaries')
+mutant('n15_positions_returns_copy', 'C15', T, "        self.to_positions()\n        return self.coords\n", "        self.to_positions()\n        return self.coords.copy()\n", None,
+       'NEGATIVE CONTROL: positions returns a copy')
 # ---- C16 ---------------------------------------------------------------------------------
 mutant('m16_except_eof_only', 'C16', T, "            except Exception as e:\n                print(e)\n                print(f'Error reading from cache, reading {coords_file!r}')\n\n        if not constant_lattice:",
        "            except EOFError as e:\n                print(e)\n                print(f'Error reading from cache, reading {coords_file!r}')\n\n        if not constant_lattice:", 'C16/load_raised',
@@ -88,6 +94,9 @@ M.append({'id': 'n16_header_format', 'prop': 'C16', 'file': T, 'multi': [
     ("        with open(cache, 'wb') as f:\n            pickle.dump(self, f)",
      "        with open(cache, 'wb') as f:\n            f.write(b'GEMDATv1\\n')\n            pickle.dump(self, f)"),
 ], 'old': None, 'new': None, 'expect': None, 'note': 'NEGATIVE CONTROL: another on-disk format (magic header + pickle) must stay silent'})
+mutant('n16_cache_subdir', 'C16', T, "            cache = Path(xml_file).with_suffix(f'.xml.{hashid}.cache')\n",
+       "            cache = Path(xml_file).parent / 'gemdat_cache' / f'{Path(xml_file).name}.{hashid}.pkl'\n            cache.parent.mkdir(exist_ok=True)\n", None,
+       'NEGATIVE CONTROL: default vasprun caches kept in a sub-directory under another name must stay silent')
 # ---- C20 ---------------------------------------------------------------------------------
 C = 'src/gemdat/caching.py'
 mutant('m20_strong_self', 'C20', C, "            return func(_self(), *args, **kwargs)", "            return func(_self, *args, **kwargs)", 'C20/', 'placeholder', )
@@ -116,6 +125,8 @@ mutant('n20_weakkeydict', 'C20', C,
        "        @functools.lru_cache(maxsize, typed)\n        def _func(_self, *args, **kwargs):\n            return func(_self(), *args, **kwargs)\n\n        @functools.wraps(func)\n        def inner(self, *args, **kwargs):\n            return _func(weakref.ref(self), *args, **kwargs)",
        "        caches = weakref.WeakKeyDictionary()\n\n        @functools.wraps(func)\n        def inner(self, *args, **kwargs):\n            store = caches.setdefault(self, {})\n            key = (args, tuple(sorted(kwargs.items())))\n            if key not in store:\n                store[key] = func(self, *args, **kwargs)\n            return store[key]", None,
        'NEGATIVE CONTROL: a correct per-object cache in a WeakKeyDictionary must stay silent')
+mutant('n20_no_caching', 'C20', C, "    def wrapper(func):\n", "    def wrapper(func):\n        return func\n\n    def _unused(func):\n", None,
+       'NEGATIVE CONTROL: caching removed altogether (no __wrapped__ anywhere) must stay silent')
 mutant('n20_maxsize_8', 'C20', C, "def weak_lru_cache(maxsize=128, typed=False):", "def weak_lru_cache(maxsize=8, typed=True):", None, 'NEGATIVE CONTROL: smaller typed cache must stay silent')
 
 
